@@ -12,7 +12,7 @@ VARIANTS = [
     fire("c14-index-upper-only", [(RG, "            if alias_index >= from_size or alias_index < 0:", "            if alias_index >= from_size:")], ("C14.1", "NamedQubit.__init__"), P),
     fire("c14-resolve-upper-only", [(RG, "        if idx < 0 or (size is not None and idx >= int(size)):", "        if size is not None and idx >= int(size):")], ("C14.1", "Register.resolve_qubit"), P),
     fire("c14-slice-upper-only",
-         [(RG, "                if len(indices) > 0 and (\n                    min(indices[0], indices[-1]) < 0\n                    or max(indices[0], indices[-1]) >= alias_from.size\n                ):\n                    raise JaqalError(\"Index out of range.\")\n", "")],
+         [(RG, "                # (truth value, not len(): the length of a huge range does\n                # not fit a machine integer)\n                if indices and (\n                    min(indices[0], indices[-1]) < 0\n                    or max(indices[0], indices[-1]) >= alias_from.size\n                ):\n                    raise JaqalError(\"Index out of range.\")\n", "")],
          ("C14.1", "Register.__init__"), P),
     fire("c14-duplicates-overwrite",
          [(CB, "        if name in context:\n            raise JaqalError(f\"Object {obj} already exists in context\")\n        context[name] = obj", "        context[name] = obj")],
